@@ -12,6 +12,7 @@ import functools
 import itertools
 import math
 import os
+import sys
 import random
 from fractions import Fraction as Fr
 
@@ -876,6 +877,8 @@ def main(ctx):
             return None
         return [float(t) for t in np.asarray(val, dtype="f8").reshape(-1)]
 
+    _quiet_fd1 = []
+
     def one_gs(case, rec):
         kind = case[0]
         if kind == "1d":
@@ -914,6 +917,31 @@ def main(ctx):
             return rec.fail(case, "get_stats raised ValueError: %s" % e)
         except Exception as e:
             return rec.fail(case, "get_stats(%s) raised %s: %s" % (sorted(kw), type(e).__name__, e))
+        # the same call with the table printed (doprint=True, the error column scaled by nsigma_print): printing is an
+        # observer, the dictionary returned must be the same
+        if not _quiet_fd1:
+            sys.stdout.flush()
+            _quiet_fd1.append(os.dup(1))
+        try:
+            sys.stdout.flush()
+            dn = os.open(os.devnull, os.O_WRONLY)
+            os.dup2(dn, 1)
+            os.close(dn)
+            try:
+                for npr in (2.0, 1.0):
+                    kw2 = dict(kw)
+                    kw2.update(doprint=True, nsigma_print=npr)
+                    if clip:
+                        kw2["silent"] = True
+                    resp = stat.get_stats(arr, weights=warg, **kw2)
+                    for key in ("min", "max", "mean", "std", "err"):
+                        if key in res and not np.array_equal(np.asarray(res[key]), np.asarray(resp[key]), equal_nan=True):
+                            return rec.fail(case, "get_stats(doprint=True, nsigma_print=%r) returns %s=%r, without printing %r" % (npr, key, resp[key], res[key]))
+            finally:
+                sys.stdout.flush()
+                os.dup2(_quiet_fd1[0], 1)
+        except Exception as e:
+            return rec.fail(case, "get_stats(doprint=True) raised %s: %s" % (type(e).__name__, e))
         got = {}
         for key in ("min", "max", "mean", "std", "err"):
             shp = shape
